@@ -42,7 +42,11 @@ MANIFEST = dict(
          "(size, nper) (size // nper = 0 | 1 | >= 2, size % nper = 0 | > 0) in which every term is affine. A bound the sorts move away from the split "
          "point may pass only positions whose KEY was compared equal to the pivot's key. Every use of pmap's iterable is classified (harmless, the "
          "executor's draw, consuming, unknown): nothing may run through it on a path that leads to the executor's draw (one-shot iterators). Helpers "
-         "of the package are followed (yield from / for over a wrapping generator, helpers that return a possibly-None total, closures).",
+         "of the package are followed (yield from / for over a wrapping generator, helpers that return a possibly-None total, closures). "
+         "prange: the body is summarised path by path with every parameter classed None / 0 / non-zero by the tests on the path; for each call form "
+         "(1, 2, 3 arguments) that reaches a return the (start, stop, step) triple handed to range equals, as terms, the triple of the call. "
+         "Fresh results: the anchored functions are not wrapped in a memoiser and the object isplit / splitarray / pmap return is neither read "
+         "from nor stored in a container that outlives the call.",
     note="Not decided: that the partition-exchange sort sorts (a proof obligation about the algorithm), process scheduling (delegated "
          "to Executor.map's documented ordering). Trusted: concurrent.futures.Executor.map order, divmod identity.",
     technique="static analysis: CFG path rules on loop bodies, interprocedural nullness / zeroness dataflow, vacated-slot typestate, who-may-call, "
@@ -52,7 +56,9 @@ MANIFEST = dict(
 
 # rules that keep their verdict however the code is laid out (decided by term equality, effect analysis or dominance over
 # resolved calls); every other rule of this check is a template rule (vcheck.core.Check.obt)
-SEMANTIC = ('R20.gen', 'R20.isplit', 'R20.null', 'R20.zero', 'R20.perm', 'R20.pmap',
+SEMANTIC = ('R20.gen', 'R20.isplit', 'R20.null', 'R20.zero', 'R20.perm', 'R20.pmap', 'R20.fresh',
+            # decided by term equality of the range triple on every path and call form (parameter classes None / 0 / non-zero)
+            'R20.fwd::esutil.pbar.prange::range-arguments-as-given',
             # decided by term equality on the evaluated element / range terms; they give "not recognised" themselves
             'R20.split::esutil.numpy_util.splitarray::consecutive-fixed-size-slices', 'R20.split::esutil.numpy_util.splitarray::chunk-count-is-ceil',
             # decided by solving the tests that lead to the return over a case split of all (size, nper)
@@ -70,6 +76,7 @@ def run(chk):
     chk.trusted = ["concurrent.futures.Executor.map preserves input order", "CPython ast"]
     chk.floor = 40
     generators(chk, repo)
+    freshness(chk, repo)
     nullness(chk, repo)
     pmap(chk, repo)
     keyvalue(chk, repo)
@@ -424,7 +431,384 @@ def generators(chk, repo):
     chk.analysed_unit(pr.qualname)
     rets = [x for x in walk_no_nested(pr.node) if isinstance(x, ast.Return)]
     ok = len(rets) == 1 and rules.xnorm(rets[0].value, pr.node) in ("pbar(range(*args), **kwargs)", "PBar(range(*args), **kwargs)")
+    same = _range_arguments(chk, repo, pr)
+    if not ok and same and pr.node.args.kwarg is not None:
+        # an equivalent spelling: every return is pbar(range(<the arguments as given>), **<the extra keywords>) (decided by the rule above)
+        kw = pr.node.args.kwarg.arg
+        ok = _stores(pr.node, kw) == 0 and all(
+            isinstance(r.value, ast.Call) and dotted_name(r.value.func) in ("pbar", "PBar") and len(r.value.args) == 1 and len(r.value.keywords) == 1
+            and r.value.keywords[0].arg is None and isinstance(r.value.keywords[0].value, ast.Name) and r.value.keywords[0].value.id == kw for r in rets)
     chk.ob("R20.fwd", pr.qualname + "::is-pbar-of-range", ok, pr.where(), "prange(...) is pbar(range(*args), **kwargs)")
+
+
+# ---------------------------------------------------------------------------
+# R20.fwd ...::range-arguments-as-given: prange(a, ...) is pbar(range(a, ...)) for every way range can be called.  The body is summarised
+# path by path (structured statements, no loops): every name holds a term over the caller's arguments (a parameter as passed, a literal,
+# the untouched *args tuple, range(...) of such terms) and every test on a parameter narrows the classes of values it can still have on that
+# path, over the finite domain {None, 0, non-zero} that covers every argument range accepts plus the "not given" sentinel.  For each call
+# form (1, 2, 3 positional arguments, the others at their defaults) that can reach a return, the (start, stop, step) triple handed to range
+# must equal, as terms, the triple of the call as written.
+_CLS = ("None", "0", "nz")
+
+
+class _PrState:
+    def __init__(self, env, allowed, unknown=False):
+        self.env, self.allowed, self.unknown = env, allowed, unknown
+
+    def copy(self):
+        return _PrState(dict(self.env), {k: set(v) for k, v in self.allowed.items()}, self.unknown)
+
+
+def _pr_term(st, e):
+    """the term an expression evaluates to: ('p', name) a parameter as passed, ('c', value), ('star', name), ('range', [terms]); None unknown"""
+    if isinstance(e, ast.Name):
+        return st.env.get(e.id)
+    if isinstance(e, ast.Constant) and (e.value is None or (isinstance(e.value, int) and not isinstance(e.value, bool))):
+        return ("c", e.value)
+    if isinstance(e, ast.UnaryOp) and isinstance(e.op, (ast.USub, ast.UAdd)):
+        v = _pr_term(st, e.operand)
+        if v is not None and v[0] == "c" and isinstance(v[1], int):
+            return ("c", -v[1] if isinstance(e.op, ast.USub) else v[1])
+        return None
+    if isinstance(e, ast.Call) and isinstance(e.func, ast.Name) and e.func.id == "range" and "range" not in st.env and not e.keywords:
+        args = []
+        for a in e.args:
+            if isinstance(a, ast.Starred):
+                v = _pr_term(st, a.value)
+                if v is None or v[0] != "star":
+                    return None
+                args.append(v)
+            else:
+                v = _pr_term(st, a)
+                if v is None or v[0] not in ("p", "c"):
+                    return None
+                args.append(v)
+        return ("range", args)
+    return None
+
+
+def _pr_cls(v):
+    return "None" if v is None else ("0" if v == 0 else "nz")
+
+
+def _pr_branch(st, t):
+    """[(state, truth)]: the states in which the test is true / false, the parameter classes narrowed"""
+    if isinstance(t, ast.UnaryOp) and isinstance(t.op, ast.Not):
+        return [(s, not b) for s, b in _pr_branch(st, t.operand)]
+    if isinstance(t, ast.BoolOp):
+        stop_on = isinstance(t.op, ast.Or)
+        out, cur = [], [st]
+        for i, v in enumerate(t.values):
+            nxt = []
+            for s in cur:
+                for s2, b in _pr_branch(s, v):
+                    if b == stop_on or i == len(t.values) - 1:
+                        out.append((s2, b))
+                    else:
+                        nxt.append(s2)
+            cur = nxt
+        return out
+    var, tset = None, None
+    if isinstance(t, ast.Name):
+        var, tset = t, {"nz"}
+    elif isinstance(t, ast.Compare) and len(t.ops) == 1:
+        l, op, r = t.left, t.ops[0], t.comparators[0]
+        if not isinstance(l, ast.Name) and isinstance(r, ast.Name) and isinstance(op, (ast.Eq, ast.NotEq, ast.Is, ast.IsNot)):
+            l, r = r, l
+        c = _pr_term(st, r) if not isinstance(r, ast.Name) else None
+        if isinstance(l, ast.Name) and c is not None and c[0] == "c" and c[1] in (None, 0) and not isinstance(c[1], bool):
+            if isinstance(op, (ast.Eq, ast.Is)) and (c[1] is None or isinstance(op, ast.Eq)):
+                var, tset = l, {_pr_cls(c[1])}
+            elif isinstance(op, (ast.NotEq, ast.IsNot)) and (c[1] is None or isinstance(op, ast.NotEq)):
+                var, tset = l, set(_CLS) - {_pr_cls(c[1])}
+    v = st.env.get(var.id) if var is not None else None
+    if v is not None and v[0] == "c":
+        return [(st, _pr_cls(v[1]) in tset)]
+    if v is not None and v[0] == "p":
+        out = []
+        for truth, cl in ((True, tset), (False, set(_CLS) - tset)):
+            s = st.copy()
+            s.allowed[v[1]] &= cl
+            if s.allowed[v[1]]:
+                out.append((s, truth))
+        return out
+    a, b = st.copy(), st.copy()
+    a.unknown = b.unknown = True        # a test that is not about the class of one parameter: both ways, nothing learned
+    return [(a, True), (b, False)]
+
+
+def _pr_exec(stmts, st, rets, bad):
+    """run the statement list from state st: the states that fall through; returns go to rets; bad collects what is not understood"""
+    cur = [st]
+    for s in stmts:
+        if not cur:
+            break
+        if isinstance(s, ast.Expr) and isinstance(s.value, ast.Constant):
+            continue
+        if isinstance(s, ast.Return):
+            rets += [(c, s) for c in cur]
+            return []
+        if isinstance(s, ast.Raise):
+            return []
+        if isinstance(s, ast.If):
+            nxt = []
+            for c in cur:
+                for c2, b in _pr_branch(c, s.test):
+                    nxt += _pr_exec(s.body if b else s.orelse, c2, rets, bad)
+            cur = nxt
+            continue
+        if isinstance(s, ast.Assign) and len(s.targets) == 1 and isinstance(s.targets[0], ast.Name) and isinstance(s.value, ast.IfExp):
+            nxt = []
+            for c in cur:
+                for c2, b in _pr_branch(c, s.value.test):
+                    c2.env[s.targets[0].id] = _pr_term(c2, s.value.body if b else s.value.orelse)
+                    nxt.append(c2)
+            cur = nxt
+            continue
+        if isinstance(s, ast.Assign) and len(s.targets) == 1:
+            t, v = s.targets[0], s.value
+            if isinstance(t, ast.Name):
+                pairs = [(t, v)]
+            elif isinstance(t, (ast.Tuple, ast.List)) and isinstance(v, (ast.Tuple, ast.List)) and len(t.elts) == len(v.elts) \
+                    and all(isinstance(x, ast.Name) for x in t.elts):
+                pairs = list(zip(t.elts, v.elts))
+            else:
+                pairs = None
+            if pairs is not None:
+                for c in cur:
+                    vals = [_pr_term(c, y) for _, y in pairs]
+                    for (x, _), val in zip(pairs, vals):
+                        c.env[x.id] = val
+                continue
+        if isinstance(s, (ast.For, ast.While, ast.Try, ast.With, ast.Match if hasattr(ast, "Match") else ast.With)) \
+                and any(isinstance(x, ast.Return) for x in walk_no_nested(s)):
+            bad.append("`%s`" % norm(s)[:60])
+            return []
+        # anything else: the names it binds are no longer known
+        for x in ast.walk(s):
+            if isinstance(x, ast.Name) and isinstance(x.ctx, (ast.Store, ast.Del)):
+                for c in cur:
+                    c.env[x.id] = None
+            elif isinstance(s, (ast.FunctionDef, ast.ClassDef, ast.AsyncFunctionDef)):
+                for c in cur:
+                    c.env[s.name] = None
+    return cur
+
+
+def _pr_canon(args):
+    if len(args) == 1:
+        return (("c", 0), args[0], ("c", 1))
+    if len(args) == 2:
+        return (args[0], args[1], ("c", 1))
+    if len(args) == 3:
+        return tuple(args)
+    return None
+
+
+def _pr_items(tr, val):
+    """the items of range(*tr) with the symbols valued by `val` (constant evaluation of the two terms that were found to differ)"""
+    a = [t[1] if t[0] == "c" else val[t[1]] for t in tr]
+    if any(not isinstance(x, int) for x in a) or a[2] == 0:
+        return None
+    return list(range(*a))
+
+
+def _range_arguments(chk, repo, pr):
+    import itertools
+    key = pr.qualname + "::range-arguments-as-given"
+    text = "every call form of prange hands range exactly the arguments it was given: prange(a), prange(a, b), prange(a, b, c) iterate " \
+           "range(a), range(a, b), range(a, b, c)"
+    a = pr.node.args
+    pos = [p.arg for p in list(getattr(a, "posonlyargs", [])) + list(a.args)]
+    env = {p: ("p", p) for p in pos}
+    env.update({p.arg: None for p in a.kwonlyargs})
+    if a.vararg:
+        env[a.vararg.arg] = ("star", a.vararg.arg)
+    if a.kwarg:
+        env[a.kwarg.arg] = None
+    st = _PrState(env, {p: set(_CLS) for p in pos})
+    rets, bad = [], []
+    fall = _pr_exec(pr.node.body, st, rets, bad)
+    if bad or fall or not rets or len(pos) > 3 or (pos and a.vararg):
+        chk.ob("R20.fwd", key, None, pr.where(), text + " (not recognised: %s)" % (bad or ("a path leaves without a return" if fall else "signature / no return")))
+        return False
+    dflt = {}
+    for p in pos:
+        if p in pr.defaults:
+            d = _pr_term(_PrState({}, {}), pr.defaults[p])
+            if d is None or d[0] != "c":
+                chk.ob("R20.fwd", key, None, pr.where(), text + " (default of `%s` is not a literal)" % p)
+                return False
+            dflt[p] = d
+    nreq = len([p for p in pos if p not in dflt])
+    wrong, unsure = [], []
+    for s, ret in rets:
+        v = ret.value
+        g = _callee(repo, pr, v) if isinstance(v, ast.Call) else None
+        if isinstance(v, ast.Call) and g is None and dotted_name(v.func) and norm(pr.module.consts.get(dotted_name(v.func), ast.Constant(value=None))) == "pbar" \
+                and repo.has("esutil.pbar.pbar"):
+            g = repo.func("esutil.pbar.pbar")
+        if g is None or g.qualname not in ("esutil.pbar.pbar", "esutil.pbar.sbar", "esutil.pbar._pbar_full"):
+            unsure.append("`%s` is not a call of the progress wrapper" % norm(ret)[:70])
+            continue
+        itx = v.args[0] if (v.args and not isinstance(v.args[0], ast.Starred)) else next((k.value for k in v.keywords if k.arg == g.params[0]), None)
+        rg = _pr_term(s, itx) if itx is not None else None
+        if rg is None or rg[0] != "range":
+            unsure.append("the iterable wrapped by `%s` is not range(...) of the arguments" % norm(ret)[:70])
+            continue
+        if not pos:
+            # (*args): the tuple as passed, spliced
+            if rg[1] == [("star", a.vararg.arg)] if a.vararg else False:
+                continue
+            unsure.append("`%s`" % norm(itx))
+            continue
+        if any(t[0] == "star" for t in rg[1]) or _pr_canon(rg[1]) is None:
+            unsure.append("`%s`" % norm(itx))
+            continue
+        got = _pr_canon(rg[1])
+        for k in range(max(nreq, 1), min(len(pos), 3) + 1):
+            given, rest = pos[:k], pos[k:]
+            if any(_pr_cls(dflt[p][1]) not in s.allowed[p] for p in rest):
+                continue                # this path is not taken by a call with k arguments
+            choices = [sorted(s.allowed[p] & {"0", "nz"}) for p in given]
+            for combo in itertools.product(*choices):
+                sub = {p: dflt[p] for p in rest}
+                sub.update({p: ("c", 0) for p, c in zip(given, combo) if c == "0"})
+                want = tuple(sub.get(t[1], t) if t[0] == "p" else t for t in _pr_canon([("p", p) for p in given]))
+                have = tuple(sub.get(t[1], t) if t[0] == "p" else t for t in got)
+                if want == have:
+                    continue
+                if any(t[0] == "c" and not isinstance(t[1], int) for t in want + have):
+                    unsure.append("range receives None")
+                    continue
+                # the two triples differ as terms: a model of the disequality over the free (non-zero, independent) arguments
+                syms = sorted({t[1] for t in want + have if t[0] == "p"})
+                wit = None
+                for vals in itertools.product((-3, -1, 2, 5), repeat=len(syms)):
+                    val = dict(zip(syms, vals))
+                    x, y = _pr_items(want, val), _pr_items(have, val)
+                    if x is not None and y is not None and x != y:
+                        wit = val
+                        break
+                call = "prange(%s)" % ", ".join(str(sub[p][1]) if p in sub else (str(wit[p]) if wit else p) for p in given)
+                show = lambda tr: "range(%s)" % ", ".join(str(t[1]) if t[0] == "c" else (str(wit[t[1]]) if wit else t[1]) for t in tr)
+                m = "%s iterates %s instead of %s (line %s)" % (call, show(have), show(want), ret.lineno)
+                if wit is not None and not s.unknown:
+                    wrong.append(m + ": the tests on the way there do not tell an argument that was passed as 0 from one that was not passed")
+                else:
+                    unsure.append(m)
+    chk.ob("R20.fwd", key, False if wrong else (None if unsure else True), pr.where(), text + (" -- " + "; ".join((wrong or unsure)[:3]) if (wrong or unsure) else ""))
+    return not wrong and not unsure
+
+
+# ---------------------------------------------------------------------------
+# R20.fresh: every call computes its result anew.  What the chunking / mapping functions return is a mutable object (a record array, a
+# list) that belongs to the caller; the generators are one-shot.  A result that is kept and handed out again (a memoising decorator, a
+# module-level or default-argument container the returned object is stored in or read from) makes a later call return whatever the first
+# caller has since done to it, so the ranges / chunks / items are no longer those of the arguments.
+_MEMO_WORDS = ("cache", "memo")
+_PERSIST_CALLS = ("dict", "list", "OrderedDict", "defaultdict", "WeakValueDictionary", "set", "deque")
+
+
+def _memo_name(repo, fi, d):
+    """(is a memoiser, text) for a decorator / wrapper expression"""
+    f = d.func if isinstance(d, ast.Call) else d
+    if isinstance(f, ast.Call):
+        f = f.func
+    dn = dotted_name(f)
+    if not dn:
+        return None, norm(d)
+    full = repo.resolve_name(fi.module, dn)
+    last = full.rsplit(".", 1)[-1].lower()
+    if full in ("functools.wraps", "functools.update_wrapper"):
+        return None, norm(d)
+    return (True if any(w in last for w in _MEMO_WORDS) else None), norm(d)
+
+
+def _persistent_names(fi):
+    """names that outlive one call of fi: module-level containers the function reads, parameters with a mutable default, the function object itself"""
+    fn = fi.node
+    local = {x.id for x in walk_no_nested(fn) if isinstance(x, ast.Name) and isinstance(x.ctx, ast.Store)}
+    glob = {n for x in walk_no_nested(fn) if isinstance(x, ast.Global) for n in x.names}
+    out = set()
+
+    def mutable(v):
+        return isinstance(v, (ast.Dict, ast.List, ast.Set)) or (isinstance(v, ast.Call) and (dotted_name(v.func) or "").rsplit(".", 1)[-1] in _PERSIST_CALLS)
+    for p in func_params(fn):
+        if p in fi.defaults and mutable(fi.defaults[p]):
+            out.add(p)
+    for x in walk_no_nested(fn):
+        if isinstance(x, ast.Name) and (x.id not in local or x.id in glob) and x.id not in func_params(fn) and mutable(fi.module.consts.get(x.id)):
+            out.add(x.id)
+    return out
+
+
+def _persistent_base(e, keep, own):
+    """the persistent container an expression reads its value out of (S[k], S.get(k), S.setdefault(k, v), f.attr[k]); None otherwise"""
+    if isinstance(e, ast.Subscript):
+        b = e.value
+    elif isinstance(e, ast.Call) and isinstance(e.func, ast.Attribute) and e.func.attr in ("get", "setdefault", "__getitem__"):
+        b = e.func.value
+    else:
+        return None
+    if isinstance(b, ast.Name) and b.id in keep:
+        return b.id
+    if isinstance(b, ast.Attribute) and isinstance(b.value, ast.Name) and b.value.id == own:
+        return norm(b)
+    return None
+
+
+def freshness(chk, repo):
+    for q, mutable_result in (("esutil.algorithm.isplit", True), ("esutil.numpy_util.splitarray", True), ("esutil.pbar.pmap", True),
+                              ("esutil.pbar.pbar", False), ("esutil.pbar.prange", False), ("esutil.pbar.sbar", False), ("esutil.pbar._pbar_full", False),
+                              ("esutil.algorithm.quicksort", False), ("esutil.algorithm.quicksort_keyvalue", False)):
+        if not repo.has(q):
+            continue
+        fi = repo.func(q)
+        fn = fi.node
+        memo, other = [], []
+        for d in fn.decorator_list:
+            m, t = _memo_name(repo, fi, d)
+            (memo if m else other).append("@" + t)
+        # name = wrapper(name) at module level
+        for s in fi.module.tree.body:
+            if isinstance(s, ast.Assign) and any(isinstance(t, ast.Name) and t.id == fn.name for t in s.targets) and isinstance(s.value, ast.Call) \
+                    and any(isinstance(x, ast.Name) and x.id == fn.name for x in ast.walk(s.value)):
+                m, t = _memo_name(repo, fi, s.value)
+                (memo if m else other).append("%s = %s" % (fn.name, norm(s.value)))
+        what = "a record array / list the caller owns" if mutable_result else "a one-shot generator / an in-place effect"
+        chk.ob("R20.fresh", q + "::not-memoised", False if memo else (None if other else True), fi.where(),
+               "%s computes its result on every call (%s): it is not wrapped in a memoiser that hands the object of an earlier call out again%s"
+               % (fn.name, what, (" -- found %s: equal arguments get the SAME object back, changed by whatever an earlier caller did to it" % ", ".join(memo)) if memo
+                  else ((" -- wrapper not recognised: %s" % ", ".join(other)) if other else "")))
+        if not mutable_result:
+            continue
+        keep = _persistent_names(fi)
+        shared = []
+        returned = set()
+        for r in walk_no_nested(fn):
+            if not (isinstance(r, ast.Return) and r.value is not None):
+                continue
+            cands = [r.value]
+            if isinstance(r.value, ast.Name):
+                returned.add(r.value.id)
+                cands += [s.value for s in walk_no_nested(fn) if isinstance(s, ast.Assign) and any(isinstance(t, ast.Name) and t.id == r.value.id for t in s.targets)]
+                cands += [s.value for s in walk_no_nested(fn) if isinstance(s, ast.NamedExpr) and s.target.id == r.value.id]
+            for c in cands:
+                b = _persistent_base(c, keep, fn.name)
+                if b is not None:
+                    shared.append("`%s` (line %s) comes out of `%s`, which outlives the call" % (norm(c), c.lineno, b))
+        for s in walk_no_nested(fn):
+            if isinstance(s, ast.Assign) and isinstance(s.value, ast.Name) and s.value.id in returned:
+                for t in s.targets:
+                    b = _persistent_base(t, keep, fn.name) if isinstance(t, ast.Subscript) else None
+                    if b is not None:
+                        shared.append("`%s` (line %s) keeps the returned object in `%s`, which outlives the call" % (norm(s), s.lineno, b))
+            if isinstance(s, ast.Call) and isinstance(s.func, ast.Attribute) and s.func.attr == "setdefault" and len(s.args) == 2 \
+                    and isinstance(s.args[1], ast.Name) and s.args[1].id in returned and _persistent_base(s, keep, fn.name) is not None:
+                shared.append("`%s` (line %s) keeps the returned object" % (norm(s), s.lineno))
+        chk.ob("R20.fresh", q + "::result-not-shared-between-calls", not shared, fi.where(),
+               "the object %s returns is built during the call and kept nowhere that outlives it%s" % (fn.name, (" -- " + "; ".join(shared[:3])) if shared else ""))
 
 
 # ---------------------------------------------------------------------------
